@@ -49,7 +49,7 @@ Proof. intros HE H. induction l as [|x l IH]; intros g g' E; simpl in E.
 
 Section Seed.
 Variable p : pspec.
-Let lay := build_layout p false.
+Variable lay : layout.
 Local Notation encn := (enc p lay).
 
 (* ---- positions of structures ---- *)
@@ -227,23 +227,30 @@ Proof. intros H.
     + apply (items_links_ext items 0 (fun o => s0 + o) (fun o => DPos n o) g1 g2); [|exact E]. intros o. simpl. unfold tstart_of. rewrite A. reflexivity.
     + destruct (forallb _ items) eqn:Z; [|discriminate]. inversion E. rewrite (item_links_zero items 0 _ Z). symmetry. apply gext_nil. Qed.
 
+End Seed.
+
+Section SeedStrand.
+Variable p : pspec.
+Let lay := build_layout p false.
+Local Notation encn := (enc p lay).
+Local Notation encnode := (fun nc : dnode * ascii => (encn (fst nc), snd nc)).
 Theorem seed_graph lay' g : seed p false = OK (lay', g) ->
   lay' = lay /\ g_st g = map encnode (d_nodes p false) /\ g_eq g = enc_links p lay (d_eq p false) /\ g_wc g = enc_links p lay (d_wc p false) /\
   g_keys g = map fst (g_st g).
 Proof. unfold seed. cbv zeta. change (build_layout p false) with lay. intros H. cbn [bind] in H.
-  pose proof phase1 as P1. cbv zeta in P1. rewrite P1 in H. clear P1.
+  pose proof (phase1 p lay) as P1. cbv zeta in P1. rewrite P1 in H. clear P1.
   match type of H with (do g3 <- ?e; _) = _ => destruct e as [g3|k] eqn:P2; [|discriminate] end. cbn [bind] in H.
-  apply phase2 in P2. subst g3.
-  pose proof (phase3_bases (p_bases p)) as P3. cbv zeta in P3. rewrite P3 in H. clear P3.
-  pose proof (phase3_sups (p_sups p)) as P3. cbv zeta in P3. rewrite P3 in H. clear P3.
+  apply (phase2 p lay) in P2. subst g3.
+  pose proof (phase3_bases p lay (p_bases p)) as P3. cbv zeta in P3. rewrite P3 in H. clear P3.
+  pose proof (phase3_sups p lay (p_sups p)) as P3. cbv zeta in P3. rewrite P3 in H. clear P3.
   match type of H with (do g6 <- ?e; _) = _ => destruct e as [g6|k] eqn:P4; [|discriminate] end. cbn [bind] in H.
-  apply phase4 in P4. subst g6.
+  apply (phase4 p lay) in P4. subst g6.
   match type of H with (do g7 <- ?e; _) = _ => destruct e as [g7|k] eqn:P5; [|discriminate] end. cbn [bind] in H.
-  apply phase5 in P5. subst g7.
+  apply (phase5 p lay) in P5. subst g7.
   match type of H with (do g8 <- ?e; _) = _ => destruct e as [g8|k] eqn:P6; [|discriminate] end. cbn [bind] in H.
-  apply phase6 in P6. subst g8. inversion H; subst lay' g. clear H. rewrite !gext_gext. split; [reflexivity|]. cbn [gext g_st g_eq g_wc g0].
+  apply (phase6 p lay) in P6. subst g8. inversion H; subst lay' g. clear H. rewrite !gext_gext. split; [reflexivity|]. cbn [gext g_st g_eq g_wc g0].
   unfold d_nodes, d_eq, d_wc, inst_links, nb, enc_links. rewrite !map_app, !app_nil_r. simpl. repeat split; try reflexivity. rewrite !map_app. reflexivity. Qed.
-End Seed.
+End SeedStrand.
 
 (* ---- the boolean used by the denotation theorems follows ---- *)
 Lemma pairs_eqb_refl l : pairs_eqb l l = true.
